@@ -109,15 +109,17 @@ pub fn finish(prop: &str, tier: &str, seed: i64, jobs: &[Box<dyn JobT>], outcome
     let mut machinery_error = false;
     for (ji, o) in outcomes.iter().enumerate() {
         // vacuity guards (DESIGN.md §3.7): the alphabet must still produce concurrency / pending removes
-        if o.cfg.n >= 2 && o.cfg.actors >= 2 && o.stats.conflicts == 0 {
+        // (only meaningful on a run without failures: a panicking subject aborts the exploration of whole subtrees)
+        let clean = o.failing_histories == 0;
+        if clean && o.cfg.n >= 2 && o.cfg.actors >= 2 && o.stats.conflicts == 0 {
             eprintln!("MACHINERY: vacuous exploration in {}: no history with concurrent ops", o.label);
             machinery_error = true;
         }
-        if o.cfg.n >= 2 && o.cfg.disc == crate::engine::Disc::Fifo && o.cfg.actors >= 2 && ["orswot", "map_mvreg", "map_orswot", "map_map_orswot"].contains(&o.system) && o.stats.pending_states == 0 {
+        if clean && o.cfg.n >= 2 && o.cfg.disc == crate::engine::Disc::Fifo && o.cfg.actors >= 2 && ["orswot", "map_mvreg", "map_orswot", "map_map_orswot"].contains(&o.system) && o.stats.pending_states == 0 {
             eprintln!("MACHINERY: vacuous exploration in {}: per-actor-FIFO delivery never produced a pending remove", o.label);
             machinery_error = true;
         }
-        if o.cfg.n >= 2 && o.stats.outcomes.len() < 2 && o.stats.checks > 0 && !o.label.contains("validate") && !o.label.contains("self-check") {
+        if clean && o.cfg.n >= 2 && o.stats.outcomes.len() < 2 && o.stats.checks > 0 && !o.label.contains("validate") && !o.label.contains("self-check") {
             eprintln!("MACHINERY: vacuous exploration in {}: a single distinct outcome", o.label);
             machinery_error = true;
         }
@@ -193,6 +195,7 @@ pub fn finish(prop: &str, tier: &str, seed: i64, jobs: &[Box<dyn JobT>], outcome
     let mut ksets = 0u64;
     let mut outcomes_n = 0u64;
     let mut checks = 0u64;
+    let mut schedules = 0u64;
     let mut samples: Vec<Value> = vec![];
     let mut jobs_json = vec![];
     for o in outcomes {
@@ -202,6 +205,7 @@ pub fn finish(prop: &str, tier: &str, seed: i64, jobs: &[Box<dyn JobT>], outcome
         ksets += o.stats.knowledge_sets;
         outcomes_n += o.stats.outcomes.len() as u64;
         checks += o.stats.checks;
+        schedules = schedules.saturating_add(o.stats.schedules);
         samples.extend(o.samples.iter().cloned());
         jobs_json.push(json!({
             "config": o.label, "system": o.system,
@@ -209,7 +213,7 @@ pub fn finish(prop: &str, tier: &str, seed: i64, jobs: &[Box<dyn JobT>], outcome
                        "alphabet_size": o.cfg.cmds.len(), "actor_symmetry_reduction": o.cfg.sym, "actor_map": o.cfg.actor_map},
             "histories": o.stats.histories, "knowledge_sets": o.stats.knowledge_sets, "states": o.stats.states,
             "apply_transitions": o.stats.applies, "merge_transitions": o.stats.merges, "oracle_transitions": o.stats.aux_transitions,
-            "op_generations_through_api": o.stats.gens, "oracle_evaluations": o.stats.checks,
+            "op_generations_through_api": o.stats.gens, "complete_delivery_schedules_represented": o.stats.schedules, "oracle_evaluations": o.stats.checks,
             "distinct_outcomes": o.stats.outcomes.len(), "histories_with_concurrent_ops": o.stats.conflicts,
             "states_with_pending_removes": o.stats.pending_states, "max_states_per_knowledge_set": o.stats.max_states_per_k,
             "failing_histories": o.failing_histories, "failure_cores": o.cores.len(), "completed": !o.overflow, "wall_s": o.wall_s,
@@ -229,7 +233,7 @@ pub fn finish(prop: &str, tier: &str, seed: i64, jobs: &[Box<dyn JobT>], outcome
             "states": states.max(1), "transitions": transitions.max(1),
             "traces_validated_against_impl": transitions,
             "samples": samples,
-            "histories": histories, "knowledge_sets": ksets, "distinct_outcomes": outcomes_n, "oracle_evaluations": checks,
+            "histories": histories, "knowledge_sets": ksets, "distinct_outcomes": outcomes_n, "oracle_evaluations": checks, "complete_delivery_schedules_represented": schedules,
             "exhaustive": exhaustive,
             "explanation": "explicit-state exploration of the real crate: every transition (apply / merge / duplicate / stale merge / restore / reset_remove) is a call into the implementation, so every explored trace is an implementation trace; states are deduplicated per knowledge set with the crate's own ==; all configurations below ran to completion (no iteration, branch or time cap)",
             "configurations": jobs_json,
